@@ -217,6 +217,14 @@ func vfTime() time.Time {
 // (no effect natively: the real clock is used).
 func vfClockMaxStep(ns int64) {}
 
+// vfTimerBy reports whether the timer the calling goroutine armed last (if
+// any) expires no later than deadline on the model clock. Natively (replay) the
+// real clock stands in: the call is made right after the timed-out operation
+// returned, which must be no later than the deadline plus scheduling slack.
+func vfTimerBy(deadline time.Time) bool {
+	return time.Now().Before(deadline.Add(300 * time.Millisecond))
+}
+
 // vfUnwind declares an unwinding bound (loop-head visits per call frame) for
 // the rest of the path; natively a watchdog in the replay driver plays its role.
 func vfUnwind(n int) {}
